@@ -266,10 +266,13 @@ impl Iterator for MarkdownIterator<'_> {
                 }
 
                 // gather optional per-test config
+                // (blanks behind the closing brace do not matter, a group of
+                // nothing but blanks is no configuration)
                 let config_lines: Vec<(usize, String)> = if let Some(config) = config
+                    .trim_end()
                     .strip_prefix('{')
                     .and_then(|s| s.strip_suffix('}'))
-                    .and_then(|s| if s.is_empty() { None } else { Some(s) })
+                    .and_then(|s| if s.trim().is_empty() { None } else { Some(s) })
                 {
                     vec![(self.line_index - 1, config.into())]
                 } else {
